@@ -28,6 +28,13 @@ namespace
 {
 using ld           = long double;
 constexpr double U = 0x1p-53;
+// gamma_k = k u / (1 - k u) >= g k = (1 + u)^k - 1 (C14_fl_gamma): the constants of the bounds PROVED in coq/theories/C14_Float2.v
+inline ld gam(long k)
+{
+    return static_cast<ld>(k) * U / (1 - static_cast<ld>(k) * U);
+}
+// the long double references of this harness carry a relative error of about N 2^-64 themselves
+constexpr ld SLACK = 1 + 0x1p-9L;
 
 enum kind_t
 {
@@ -477,9 +484,11 @@ void check_column_stats(const std::string& id, const std::vector<double>& col, c
         sq += static_cast<ld>(v) * v;
     }
     const ld mean = sum / static_cast<ld>(N);
-    if (std::fabs(static_cast<ld>(st.m_mean(c)) - mean) > 2 * (N + 2) * U * abssum / static_cast<ld>(N))
+    // PROVED (C14_fl_mean_accuracy): |mean - S/N| <= g(N) sum|x| / N   (N - 1 effective additions + the division); it replaces
+    // the empirical 2(N+2)u sum|x|/N
+    if (std::fabs(static_cast<ld>(st.m_mean(c)) - mean) > gam(N) * abssum / static_cast<ld>(N) * SLACK + 0x1p-1074L)
     {
-        fail("mean", id, "mean is off by more than the rounding of the sum" + coldsc);
+        fail("mean", id, "mean is off by more than the proved g(N) * sum|x| / N" + coldsc);
     }
     if (N > 1)
     {
@@ -491,10 +500,13 @@ void check_column_stats(const std::string& id, const std::vector<double>& col, c
         for (const auto v : fin) ss += (static_cast<ld>(v) - mean) * (static_cast<ld>(v) - mean);
         const ld var = ss / static_cast<ld>(N - 1);
         const ld sd  = st.m_stdev(c);
-        const ld tol = (8 * N + 16) * U * sq / static_cast<ld>(N - 1) + 4 * U * sd * sd + 1e-300L;
-        if (!(sd >= 0) || std::fabs(sd * sd - var) > tol)
+        // PROVED (C14_fl_stdev_accuracy): (var - E)(1-u)^2 <= sd^2 <= (var + E)(1+u)^2 with
+        // E = (g(N+2) sum x^2 + g(2N+2) (sum|x|)^2 / N) / (N-1); it replaces the empirical (8N+16)u sum x^2/(N-1) + 4u sd^2
+        const ld E = (gam(N + 2) * sq + gam(2 * N + 2) * abssum * abssum / static_cast<ld>(N)) / static_cast<ld>(N - 1) * SLACK + 1e-300L;
+        if (!(sd >= 0) || !(sd * sd <= (var + E) * (1 + static_cast<ld>(U)) * (1 + static_cast<ld>(U))) ||
+            !((var - E) * (1 - static_cast<ld>(U)) * (1 - static_cast<ld>(U)) <= sd * sd))
         {
-            fail("stdev", id, "stdev^2 is off the sample variance by more than the rounding of the sums" + coldsc);
+            fail("stdev", id, "stdev^2 is off the sample variance by more than the proved bound of the one-pass formula" + coldsc);
         }
     }
     else if (!(st.m_stdev(c) == 0.0 && st.m_div_range(c) == 1.0 && st.m_div_stdev(c) == 1.0))
@@ -515,7 +527,7 @@ void check_column_scaling(const std::string& id, int mode, const std::vector<dou
         return " mode=" + std::to_string(mode) + " x=" + vh::hexf(col[i]) + " scaled=" + vh::hexf(scaled[i]) +
                " upscaled=" + vh::hexf(upscaled[i]) + " stats=" + stats_str(st, c) + (fresh ? " (fresh value)" : " column=" + hexjoin(col));
     };
-    ld         sum = 0, abssum = 0, colabs = 0;
+    ld         sum = 0, abssum = 0, colabs = 0, adev = 0, adev2 = 0, sdev = 0;
     long       N   = 0;
     for (size_t i = 0; i < col.size(); ++i)
     {
@@ -535,6 +547,9 @@ void check_column_scaling(const std::string& id, int mode, const std::vector<dou
         colabs += std::fabs(x);
         sum += scaled[i];
         abssum += std::fabs(static_cast<ld>(x) * div) + std::fabs(static_cast<ld>(off) * div);
+        adev += std::fabs(static_cast<ld>(x) - off);
+        adev2 += (static_cast<ld>(x) - off) * (static_cast<ld>(x) - off);
+        sdev += static_cast<ld>(x) - off;
         if (!enabled || mode == 0)
         {
             if (!same_bits(scaled[i], x) || !same_bits(upscaled[i], x))
@@ -559,7 +574,7 @@ void check_column_scaling(const std::string& id, int mode, const std::vector<dou
     {
         return;
     }
-    const ld meantol = 2 * (N + 2) * U * colabs / static_cast<ld>(N); // rounding of the mean
+    const ld meantol = gam(N) * colabs / static_cast<ld>(N) * SLACK; // PROVED rounding of the mean (C14_fl_mean_accuracy)
     const ld range   = static_cast<ld>(st.m_max(c)) - st.m_min(c);
     const double frange = st.m_max(c) - st.m_min(c); // the binary64 range done() compares with the guard
     if (mode == 2)
@@ -588,8 +603,10 @@ void check_column_scaling(const std::string& id, int mode, const std::vector<dou
     }
     else
     {
-        // zero mean, relative to the magnitude of the summed terms x_i * div and mean * div
-        if (!(std::fabs(sum) <= 4 * (N + 2) * U * abssum + 1e-300L))
+        // zero mean: PROVED (C14_fl_zero_mean) |sum of the scaled column| <= div (g(N) sum|x| + g(2) sum|x - mean|); the term
+        // N 2^-63 pays for the long double summation of this reference; it replaces the empirical 4(N+2)u sum(|x div| + |mean div|)
+        // (a single-sample column keeps the former check: the theorem is about N >= 2)
+        if (!(std::fabs(sum) <= (N > 1 ? static_cast<ld>(div) * (gam(N) * colabs * SLACK + (gam(2) + N * 0x1p-63L) * adev) : 4 * (N + 2) * U * abssum) + 1e-300L))
         {
             fail("zero-mean", id, "scaled column does not sum to zero: sum=" + vh::hexf(static_cast<double>(sum)) + dsc(0));
             return;
@@ -598,7 +615,9 @@ void check_column_scaling(const std::string& id, int mode, const std::vector<dou
         {
             for (size_t i = 0; i < col.size(); ++i)
             {
-                if (std::isfinite(col[i]) && !(std::fabs(static_cast<ld>(scaled[i])) <= (range + meantol) * div * (1 + 8 * U)))
+                // PROVED (C14_fl_mean_range): |y| <= ((max - min) + delta) div (1+u)^2 + eta, delta = error of the stored mean
+                if (std::isfinite(col[i]) && !(std::fabs(static_cast<ld>(scaled[i])) <=
+                                               (range + meantol) * div * (1 + static_cast<ld>(U)) * (1 + static_cast<ld>(U)) * (1 + 0x1p-60L) + 0x1p-1075L))
                 {
                     fail("mean-range", id, "mean scaled value outside [-1, 1]" + dsc(i));
                     return;
@@ -627,21 +646,33 @@ void check_column_scaling(const std::string& id, int mode, const std::vector<dou
                     ssc += static_cast<ld>(scaled[i]) * scaled[i];
                 }
             }
-            const ld var  = ss / static_cast<ld>(N - 1);
+            // reference variance from the deviations to the STORED mean (a pivot within a few ulps of the true mean): accurate
+            // relative to the variance itself also for nearly constant columns, where the two-pass formula with a long double
+            // mean is not
+            (void)ss;
+            const ld var  = (adev2 - sdev * sdev / static_cast<ld>(N)) / static_cast<ld>(N - 1);
             const ld vsc  = (ssc - sum * sum / static_cast<ld>(N)) / static_cast<ld>(N - 1);
-            const ld rho  = var > 0 ? (8 * N + 16) * U * sq / static_cast<ld>(N - 1) / var : 1.0L;
-            const ld mul  = st.m_mul_stdev(c);
-            if (st.m_stdev(c) >= eps && rho < 0.01L)
+            // PROVED (C14_fl_scaled_variance): |var(scaled) - div^2 var| <= g(4) div^2 (sum (x-m)^2 + (sum|x-m|)^2/N)/(N-1), for EVERY
+            // column (guarded or not, well conditioned or not); N 2^-60 pays for the one-pass long double variance of this reference
+            const ld dv   = div;
+            const ld b1   = gam(4) * dv * dv * (adev2 + adev * adev / static_cast<ld>(N)) / static_cast<ld>(N - 1) * SLACK;
+            const ld refe = N * 0x1p-60L * (std::fabs(vsc) + dv * dv * var + 1);
+            if (!(std::fabs(vsc - dv * dv * var) <= b1 + refe))
             {
-                if (!(std::fabs(vsc - 1.0L) <= 4 * rho + 64 * (N + 2) * U))
+                fail("unit-deviation", id, "standardised column has variance " + vh::hexf(static_cast<double>(vsc)) + " != div^2 * variance" + dsc(0));
+            }
+            // PROVED (C14_fl_unit_variance + C14_fl_stdev_accuracy): when the deviation is not below the guard,
+            // |var(scaled) - 1| <= b1 + ((1+u)^2/(1-u)^2 - 1) + (1+u)^2 E / sd^2 with E the bound of the one-pass variance
+            // (it replaces the empirical 4 rho + 64(N+2)u and needs no conditioning threshold)
+            if (st.m_stdev(c) >= eps)
+            {
+                const ld u1 = U, sdl = st.m_stdev(c);
+                const ld E  = (gam(N + 2) * sq + gam(2 * N + 2) * colabs * colabs / static_cast<ld>(N)) / static_cast<ld>(N - 1) * SLACK;
+                const ld b2 = b1 + ((1 + u1) * (1 + u1) / ((1 - u1) * (1 - u1)) - 1) + (1 + u1) * (1 + u1) * E / (sdl * sdl);
+                if (!(std::fabs(vsc - 1.0L) <= b2 + refe))
                 {
                     fail("unit-deviation", id, "standardised column has variance " + vh::hexf(static_cast<double>(vsc)) + dsc(0));
                 }
-            }
-            else if (!(vsc * mul * mul <= var * (1 + 64 * (N + 2) * U) + (8 * N + 16) * U * sq / static_cast<ld>(N - 1) + 1e-300L))
-            {
-                // guarded / ill-conditioned: the scaled deviation never exceeds deviation / max(stdev, eps)
-                fail("unit-deviation", id, "standardised column has variance " + vh::hexf(static_cast<double>(vsc)) + dsc(0));
             }
         }
     }
